@@ -21,7 +21,7 @@ COMPONENTS = {
     'stub': ['event loop scheduler (detsim.SimLoop)', 'ASGI server + client (detsim.asgi_sim.Conn)',
              'responder script interpreter', 'binary media handler'],
 }
-EXPECTED_PROBES = ('queue_full', 'recv_cancelled', 'send_bg', 'disconnect_while_full', 'recv_blocked',
+EXPECTED_PROBES = ('second_connection', 'queue_full', 'recv_cancelled', 'send_bg', 'disconnect_while_full', 'recv_blocked',
                    'final_disconnect_injected', 'pump_in_hand')
 ASSUMPTIONS = (
     'ready callbacks run FIFO as asyncio guarantees; only environment timing varies',
@@ -111,7 +111,10 @@ class H(WsHarness):
 
     def _pending_others(self):
         cur = asyncio.current_task(self.loop)
-        return [t for t in asyncio.all_tasks(self.loop) if t is not cur and not t.done()]
+        root = getattr(cur, 'sim_root', cur)
+        return [t for t in asyncio.all_tasks(self.loop)
+                if t is not cur and not t.done() and getattr(t, 'sim_root', None) is root
+                and t is not getattr(self, 'bg_task', None)]
 
     def close_check(self):
         if self.conn.in_receive:
@@ -280,6 +283,12 @@ def run(ctx):
                 'script': [list(map(_j, op)) for op in script]}
     ctx.plan_key = json.dumps(ctx.plan, sort_keys=True, default=repr)
     h = H(ctx, cfg, client, script)
+    n_bg = 0
+    if ch.draw(4, 'second_connection') == 3:
+        # another client talks to the same app at the same time
+        n_bg = 1 + ch.draw(4, 'bg_msgs')
+        h.setup_background(n_bg)
+        ctx.probe('second_connection')
     h.execute()
     conn = h.conn
     for oid, msg in h.monitor.violations:
@@ -289,6 +298,17 @@ def run(ctx):
     check_fifo(ctx, h)
     check_order(ctx, h)
     check_op_errors(ctx, h)
+    if n_bg:
+        for oid, msg in h.bg_monitor.violations:
+            ctx.violate(oid, 'second connection: ' + msg, conn='second')
+        if h.bg_exc is not None:
+            ctx.violate('ws.app_raised', 'second connection: exception escaped: %r' % (h.bg_exc,), conn='second')
+        elif h.bg_done and h.bg_got != h.bg_sent:
+            ctx.violate('ws.fifo', 'second connection received %r, its client sent %r' % (h.bg_got, h.bg_sent),
+                        conn='second')
+        elif h.app_returned and not h.bg_done:
+            ctx.violate('ws.lost_wakeup', 'second connection never finished (received %r of %r)' % (
+                h.bg_got, h.bg_sent), conn='second')
     if not conn.send_failed and h.app_returned and conn.monitor.state != 'closed' and not conn.lost:
         ctx.violate('ws.final_close', 'app returned, client connected, no close sent')
     ctx.event('end', h.app_returned, conn.monitor.state, len(conn.pulled), h.consumed,
